@@ -515,6 +515,53 @@ def group_object_check(ctx):
     rec.outcome("group-object")
 
 
+def absent_negation_check(ctx):
+    """A term that occurs nowhere in the annotation: its negation holds of every group, so inside [ ] it asks for nothing
+    more than a parenthesised group - `[~T]` is "there is a group", `[X && ~T]` is `[X]`, `[~(T || U)]` likewise."""
+    env = Env()
+    rec = ctx.rec
+    trees, _ = build_annotations(3, 2, 2)
+    terms = TERMS + ["blue", "clap"]
+    others = ["red", "event", "blue", "?", "??", "re*"]
+    seen = set()
+    for tree in trees:
+        text = render(tree)
+        if text in seen or not text:
+            continue
+        seen.add(text)
+        hs = env.HedString(text, env.schema)
+        has_group = "(" in text
+        absent = [t for t in terms if not env.search(t, hs)]
+        rec.state(("absent-negation", text))
+        for t in absent:
+            cases = [(f"[~{t}]", has_group, "there is a group"), (f"[(~{t})]", has_group, "there is a group"),
+                     (f"{{[~{t}]}}", None, None)]
+            for u in absent:
+                if u != t:
+                    cases.append((f"[~({t} || {u})]", has_group, "there is a group"))
+                    cases.append((f"[~{t} && ~{u}]", has_group, "there is a group"))
+            for x in others:
+                if x != t:
+                    cases.append((f"[{x} && ~{t}]", env.search(f"[{x}]", hs), f"[{x}]"))
+                    cases.append((f"[~{t} && {x}]", env.search(f"[{x}]", hs), f"[{x}]"))
+            for q, want, why in cases:
+                if want is None:
+                    continue
+                rec.n("evaluations")
+                rec.n("transitions")
+                rec.n("distinct_nontrivial")
+                try:
+                    got = env.search(q, hs)
+                except Exception as e:
+                    rec.violation("C15:search-raises:" + type(e).__name__, annotation=text, query=q, error=repr(e)[:200])
+                    continue
+                if got != bool(want):
+                    rec.violation("C15:negation-of-an-absent-term-inside-brackets", annotation=text, query=q, got=got,
+                                  expected=bool(want), same_as=why)
+                    break
+    rec.outcome("absent-negation")
+
+
 def chain_check(ctx):
     """Chains of three and four operands of one operator written without parentheses: the answer is that of the left-nested
     parenthesised query (and, for '||', of 'some operand matches')."""
@@ -715,6 +762,7 @@ def run(ctx):
     equal_group_orders(ctx)
     changed_annotation_check(ctx)
     group_object_check(ctx)
+    absent_negation_check(ctx)
     chain_check(ctx)
     ctx.rec.counts["states"] = len(ctx.rec.states)
 
